@@ -723,6 +723,10 @@ class GriffeLoader:
                 else:
                     raise UnimportableModuleError(f"Skip {subpath}, it is not importable") from error
             else:
+                if not isinstance(parent_module, Module):
+                    # A member of the parent module (attribute, imported object...) is named like this folder,
+                    # and no module was loaded for the folder itself: it has no init module.
+                    raise UnimportableModuleError(f"Skip {subpath}, it is not importable")
                 parent_namespace = parent_module.is_namespace_package or parent_module.is_namespace_subpackage
                 if parent_namespace:
                     if module_filepath not in parent_module.filepath:  # type: ignore[operator]
